@@ -249,3 +249,30 @@ def install_line_events(modules, callback):
 
 def set_line_callback(callback):
     _MON["cb"] = callback
+
+
+def install_call_events(modules, callback):
+    """Deliver a PY_START event (function entry) for every function of the given modules (visitor-callback granularity)."""
+    mon = sys.monitoring
+    if not _MON["installed"]:
+        mon.use_tool_id(mon.DEBUGGER_ID, "cmverif")
+        _MON["installed"] = True
+    _MON["call_cb"] = callback
+
+    def on_start(code, offset):
+        cb = _MON.get("call_cb")
+        if cb is not None:
+            cb(code.co_filename, code.co_name)
+
+    mon.register_callback(mon.DEBUGGER_ID, mon.events.PY_START, on_start)
+    n = 0
+    for m in modules:
+        for code in _code_objects(m):
+            cur = 0
+            try:
+                cur = mon.get_local_events(mon.DEBUGGER_ID, code)
+            except Exception:
+                pass
+            mon.set_local_events(mon.DEBUGGER_ID, code, cur | mon.events.PY_START)
+            n += 1
+    return n
